@@ -1069,8 +1069,9 @@ def gen_kmac(q):
             for klen in KL:
                 cases = [("kmac", bits, klen, clen, n, m, False) for n in NL for m in ML]
                 groups.append((1000 * len(cases) + 3 * (clen or 0), cases))
-        cases = [("kmac", bits, mk + 1, 1, n, 32, False) for n in range(0, 2 * r + 2)]
-        groups.append((1000 * len(cases), cases))
+        for klen in ([mk + 1] if q else KL[1:]):
+            cases = [("kmac", bits, klen, 1, n, 32, False) for n in range(0, 2 * r + 2)]
+            groups.append((1000 * len(cases), cases))
         for klen in (mk, r + 1):
             cases = [("kmac", bits, klen, 0, n, m, True) for m in (8, 32, r + 1) for n in (0, r + 1)]
             groups.append((60000 * len(cases), cases))
@@ -1220,12 +1221,14 @@ def gen_hmac(q):
         cases += [("hmac", hname, kl, kk, n, 2, False) for kl in (edge if q else KL) for kk in (0, 1, 2)
                   for n in ((0, B + 1) if q else NL)]
         if not q:
-            cases += [("hmac", hname, kl, 3, n, 3, False) for kl in (0, B - 1, B, B + 1, 2 * B)
+            cases += [("hmac", hname, kl, 3, n, 3, False) for kl in KL
                       for n in range(0, 2 * B + 2) if n not in NL]
-        for c in chunks(cases, 4):
+        for c in chunks(cases, 4 if q else 16):
             groups.append((per * len(c), c))
-        cases = [("hmac", hname, kl, 3, n, 3, True) for kl in (0, 1, B, B + 1) for n in (0, B + 1)]
-        for c in chunks(cases, 2):
+        cases = [("hmac", hname, kl, 3, n, 3, True)
+                 for kl in ((0, 1, B, B + 1) if q else (0, 1, B - 1, B, B + 1, B + 2, 2 * B))
+                 for n in ((0, B + 1) if q else (0, 1, B, B + 1))]
+        for c in chunks(cases, 2 if q else 7):
             groups.append(((per + 50 * 18 * D) * len(c), c))
     cases = [("hmac", None, kl, 3, n, 3, False) for kl in (0, 1, 64, 65) for n in (0, 3)]
     groups.append((100 * len(cases), cases))
@@ -1248,6 +1251,9 @@ def gen_cmac(q):
         bs = 16 if cname == "AES" else 8
         if q and cname == "Blowfish":
             kls = (4, 16, 56)
+        if not q:
+            kls = {"Blowfish": tuple(range(4, 57)), "CAST": tuple(range(5, 17)),
+                   "ARC2": tuple(range(5, 18)) + (64, 127, 128)}.get(cname, kls)
         top = (3 if q else 8) * bs + 1
         for klen in kls:
             for kkind in ((0, 1, 2, 3) if cname == "AES" else (2, 3)):
@@ -1436,8 +1442,8 @@ def run(ctx):
         ctx.require(n.get(k, 0) == v, "%s: executed %d of %d enumerated cases" % (k, n.get(k, 0), v))
     ctx.require(n.get("verify_accept", 0) > 0 and n.get("verify_reject", 0) > 0,
                 "verify(): accept and reject must both be observed")
-    ctx.require(n.get("verify_reject", 0) > 50 * n.get("verify_accept", 1),
-                "verify(): far fewer rejected candidates than the tag alphabet must produce")
+    ctx.require(n.get("verify_reject", 0) + n.get("verify_accept", 0) + n.get("verify_other", 0) > 100000,
+                "verify(): fewer candidates offered than the tag alphabet must produce")
     ctx.require(n.get("seam_calls", 0) >= (n.get("verify_accept", 0) + n.get("verify_reject", 0)) // 2,
                 "the get_random_bytes seam was not reached by every verify() call")
     macs = set(s[2] for s in a.distinct.get("shapes", ()) if s[0] == "verify")
@@ -1488,9 +1494,13 @@ def run(ctx):
             "k12": "KangarooTwelve: message lengths around 0, 8192, 16384, 24576 (and |S| = 8191..8193, "
                    "16383..16385 for each customisation) x customisation lengths x feeding patterns "
                    "(data=, none, update, two pieces, 8192- and 1000-byte pieces); output 0..337",
-            "hmac": "HMAC over %d hash variants: key length 0..block+2 and 2*block%s x 10 boundary message lengths"
-                    % (len(HMAC_HASHES), "" if q else ", 2*block+1, 3*block; message sweep 0..2*block+1 for 5 keys"),
-            "cmac": "CMAC over AES/3DES/DES/Blowfish (reference ciphers) and CAST/RC2 (library ECB as primitive): "
+            "hmac": "HMAC over %d hash variants: key length 0..block+2 and 2*block%s"
+                    % (len(HMAC_HASHES), " x 10 boundary message lengths" if q
+                       else ", 2*block+1, 3*block x every message length 0..2*block+1"),
+            "cmac": "CMAC over AES/3DES/DES/Blowfish (reference ciphers) and CAST/RC2 (library ECB as primitive), "
+                    "key lengths %s: "
+                    % ("AES 16/24/32, 3DES 16/24, Blowfish 4/16/56, CAST 5/16, RC2 5/16/128" if q else
+                       "AES 16/24/32, 3DES 16/24, Blowfish 4..56 all, CAST 5..16 all, RC2 5..17,64,127,128") +
                     "message 0..%d*block+1 x mac_len 4..block; every two-piece split up to 3*block+1"
                     % (3 if q else 8),
             "poly1305": "Poly1305_MAC(r,s) seam: 5 r x 3 s limb patterns x message 0..%d x 4 values; "
@@ -1504,8 +1514,10 @@ def run(ctx):
         },
     })
     ctx.assume("data values: zero / ones / ascending / SHAKE256(VERIF_SEED) only (DESIGN 2.4); all shapes in 'grids'")
-    ctx.assume("message lengths beyond the stated grids are covered by one long message per Merkle-Damgard hash only; "
-               "bit counters above 2^32 (2^64 for SHA-384/512) are not reached")
+    ctx.assume("message lengths beyond the stated grids are covered by one long message per Merkle-Damgard hash only "
+               "(%s); larger length counters, in particular the 2^64-bit carry of SHA-384/512, are not reached"
+               % ("2^24+1 bytes = 2^27+8 bits" if q else
+                  "2^29+1 bytes = 2^32+8 bits, crossing the 32-bit word of the bit counter; BLAKE2s 2^32+65 bytes"))
     ctx.assume("CAST-128 and RC2: CMAC is checked relative to the library's own single-block encryption")
     ctx.assume("library-chosen random nonces of Poly1305.new(nonce=None) are not exercised")
     ctx.assume("parameter refusals documented by the library (KMAC key < 16/32 bytes, mac_len/digest < 8, "
